@@ -24,6 +24,7 @@ int main(int argc, char** argv)
             continue;
         vh::g_heap_live = (long long) vh_heap_live;
         vh::g_heap_overruns_ptr = &vh_heap_overruns;
+        vh::g_heap_ov0 = (long long) vh_heap_overruns;
         vh::Desc d = vh::Desc::parse(line);
         const std::string ty = d.s("ty", "d");
         if (false) {}
